@@ -114,6 +114,9 @@ type c10Result struct {
 	calls     int
 	quiescent bool
 	writeCall map[int]bool // which global call ordinals were state-changing writes (reference run only)
+	// ownWrite: which call ordinals were writes on PKO's own API objects that carry the version read (update, patch,
+	// update-status): the calls a concurrent writer can make fail with a conflict
+	ownWrite map[int]bool
 	labels    map[string]bool
 }
 
@@ -126,7 +129,7 @@ var c10FaultKinds = []kubesim.Fault{kubesim.FaultErrorBefore, kubesim.FaultLostR
 func runC10(script *Scenario, d C10Disturbance) (*c10Result, error) {
 	r := NewRunner(script)
 	r.MaxQuiesceRounds = 30
-	res := &c10Result{writeCall: map[int]bool{}, labels: r.Labels}
+	res := &c10Result{writeCall: map[int]bool{}, ownWrite: map[int]bool{}, labels: r.Labels}
 	global := 0
 	faultAt := map[int]int{}
 	for _, f := range d.Faults {
@@ -228,6 +231,9 @@ func runC10(script *Scenario, d C10Disturbance) (*c10Result, error) {
 			n++
 			if c.Changed() {
 				res.writeCall[n] = true
+			}
+			if !c.DryRun && c.Key.Group == engine.PKOGroup && (c.Verb == "update" || c.Verb == "patch" || c.Verb == "update-status") {
+				res.ownWrite[n] = true
 			}
 		}
 	}
